@@ -283,14 +283,18 @@ impl Janitor {
       return;
     }
     let cost_to_free = current_cost - context.capacity;
-    let (victims, cost_released) = context.cache_policy[shard_index].evict(cost_to_free);
+    let (victims, _cost_reported) = context.cache_policy[shard_index].evict(cost_to_free);
     if victims.is_empty() {
       return;
     }
+    // Subtract the cost of the entries actually removed, not what the policy
+    // reports: a victim may be gone already, or resident with another cost.
+    let mut cost_released = 0u64;
     {
       let mut guard = shard.map.write();
       for key in &victims {
         if let Some(removed) = guard.remove(key) {
+          cost_released += removed.cost();
           if let Some(sender) = &context.notification_sender {
             let _ = sender.try_send((key.clone(), removed.value(), EvictionReason::Capacity));
           }
